@@ -64,7 +64,8 @@ Vers(t) == {Types[t].vers[i] : i \in 1..Len(Types[t].vers)}
 FirstOfName(t, k) == \A j \in 1..(k - 1) : Kids(t)[j].name # Kids(t)[k].name
 Expect(t, v, s) ==
   [k \in {j \in 1..Len(Kids(t)) : Resolve(t, v, j) = j \/ (Resolve(t, v, j) = 0 /\ FirstOfName(t, j))} |->
-      LET P == InsertPositions(t, v, s, k) IN [name |-> Kids(t)[k].name, set |-> P, avail |-> Avail(t, v, k)]]
+      \* ckey: the element type that an element of this name has in version v (the entry the name resolves to)
+      LET P == InsertPositions(t, v, s, k) IN [name |-> Kids(t)[k].name, set |-> P, avail |-> Avail(t, v, k), ckey |-> Kids(t)[k].ckey]]
 \* model-level comparison of the algorithm with the definition (a candidate; it counts only if the real library shows it)
 AlgoAgrees(t, v, s) ==
   \A k \in Focus(t) : Avail(t, v, k) =>
@@ -87,5 +88,5 @@ Algo == IF AlgoAgrees(ty, ver, seq) THEN TRUE ELSE PrintT(<<"ALGODIFF", ToJson([
 EmitCase == PrintT(<<"I", ToJson([ty |-> ty, ver |-> ver, hist |-> hist, names |-> [i \in 1..Len(seq) |-> Kids(ty)[seq[i]].name],
                                    exp |-> LET E == Expect(ty, ver, seq)
                                                   D == SetToSortSeq(DOMAIN E, <) IN
-                                              [j \in 1..Len(D) |-> [name |-> E[D[j]].name, set |-> SetToSortSeq(E[D[j]].set, <), avail |-> E[D[j]].avail]]])>>)
+                                              [j \in 1..Len(D) |-> [name |-> E[D[j]].name, set |-> SetToSortSeq(E[D[j]].set, <), avail |-> E[D[j]].avail, ckey |-> E[D[j]].ckey]]])>>)
 =============================================================================
